@@ -65,9 +65,10 @@ func main() {
 type state struct {
 	inst    map[string]*instance
 	current string
+	clients map[string]*client
 }
 
-func newState() *state { return &state{inst: map[string]*instance{}} }
+func newState() *state { return &state{inst: map[string]*instance{}, clients: map[string]*client{}} }
 
 func (st *state) dispatch(toks []string) (string, string) {
 	switch toks[0] {
@@ -75,6 +76,10 @@ func (st *state) dispatch(toks []string) (string, string) {
 		return codecOp(toks), ""
 	case "open", "inst", "close", "reopen", "gc", "flush", "sleep", "dump", "api":
 		return st.apiOp(toks)
+	case "conn":
+		return st.connect(toks[1]), ""
+	case "resp":
+		return st.respOp(toks)
 	}
 	return "bad-op", ""
 }
